@@ -18,7 +18,7 @@ import itertools
 from ..core import Ctx, PropSpec, Unsupported
 from ..extract import where
 from ..harness import Harness, cursor
-from ..interp import BytesObj, Raised
+from ..interp import pub, BytesObj, Raised
 from ..models import new_packet
 from ..xmlmodel import clark, make_elem, attach_nsmap
 from . import xmlcommon as X
@@ -45,7 +45,7 @@ def right_padded(bits: str) -> bytes:
 
 def mk_packet(h, offset, items=None, data=PATTERN):
     p = h.packet(data, items or {})
-    p.attrs["raw_data"].attrs["pos"] = offset
+    pub(p, "raw_data").attrs["pos"] = offset
     return p
 
 
@@ -82,7 +82,7 @@ def binary_table(ctx: Ctx, h: Harness):
                 kind, got = h.outcome(src + ".parse_value(pkt)", ENC, pkt=pkt)
                 n_cases += 1
                 want = left_padded(bits_of(PATTERN)[off:off + size])
-                pos = cursor(h, pkt.attrs["raw_data"])
+                pos = cursor(h, pub(pkt, "raw_data"))
                 ok = kind == "ok" and isinstance(got, bytes) and bytes(got) == want and getattr(got, "cls", "") == "BinaryParameter" \
                     and bytes(got.attrs.get("raw_value", b"?")) == want and pos == off + size
                 if not ok:
@@ -133,7 +133,7 @@ def string_table(ctx: Ctx, h: Harness):
                     try:
                         want = rawbuf.decode(enc)
                         ok = kind == "ok" and str(got) == want and got.attrs.get("raw_value") == rawbuf and type(got.attrs.get("raw_value")) is bytes \
-                            and cursor(h, pkt.attrs["raw_data"]) == off + nbits and getattr(got, "cls", "") == "StrParameter"
+                            and cursor(h, pub(pkt, "raw_data")) == off + nbits and getattr(got, "cls", "") == "StrParameter"
                     except UnicodeDecodeError:
                         ok = kind == "raise"
                         want = "<undecodable>"
@@ -150,7 +150,7 @@ def string_table(ctx: Ctx, h: Harness):
                 rawbuf = right_padded(allbits[off:off + nbits])
                 idx = rawbuf.index(bytes.fromhex(term_hex))
                 want = rawbuf[:idx].decode(enc)
-                ok = kind == "ok" and str(got) == want and got.attrs.get("raw_value") == rawbuf and cursor(h, pkt.attrs["raw_data"]) == off + nbits
+                ok = kind == "ok" and str(got) == want and got.attrs.get("raw_value") == rawbuf and cursor(h, pub(pkt, "raw_data")) == off + nbits
                 ctx.decide(ok, "R7.str", site, "", _why(kind, got, pkt, want, rawbuf, off + nbits), where=where(fi, fi.node))
             except Unsupported as e:
                 ctx.unknown("R7.str", site, str(e))
@@ -164,7 +164,7 @@ def string_table(ctx: Ctx, h: Harness):
             kind, got = h.outcome(f"StringDataEncoding(encoding={enc!r}, fixed_raw_length={8 * len(buf)}, termination_character={term_hex!r}).parse_value(pkt)",
                                   ENC, pkt=pkt)
             want_txt = body.decode(enc)
-            ok = kind == "ok" and str(got) == want_txt and got.attrs.get("raw_value") == buf and cursor(h, pkt.attrs["raw_data"]) == 8 * len(buf)
+            ok = kind == "ok" and str(got) == want_txt and got.attrs.get("raw_value") == buf and cursor(h, pub(pkt, "raw_data")) == 8 * len(buf)
             ctx.decide(ok, "R7.str", site, "", _why(kind, got, pkt, want_txt, buf, 8 * len(buf)), where=where(fi, fi.node))
         except Unsupported as e:
             ctx.unknown("R7.str", site, str(e))
@@ -178,7 +178,7 @@ def string_table(ctx: Ctx, h: Harness):
             pkt = mk_packet(h, 0, {}, data)
             kind, got = h.outcome(f"StringDataEncoding(encoding='UTF-16', byte_order='leastSignificantByteFirst', fixed_raw_length={len(field)}, "
                                   f"leading_length_size=16).parse_value(pkt)", ENC, pkt=pkt)
-            ok = kind == "ok" and str(got) == "ABCDEF"[:nch] and cursor(h, pkt.attrs["raw_data"]) == len(field)
+            ok = kind == "ok" and str(got) == "ABCDEF"[:nch] and cursor(h, pub(pkt, "raw_data")) == len(field)
             ctx.decide(ok, "R7.str", site, "", _why(kind, got, pkt, "ABCDEF"[:nch], right_padded(field), len(field)), where=where(fi, fi.node))
         except Unsupported as e:
             ctx.unknown("R7.str", site, str(e))
@@ -197,7 +197,7 @@ def string_table(ctx: Ctx, h: Harness):
             kind, got = h.outcome(f"StringDataEncoding(encoding='US-ASCII', fixed_raw_length={nbits}, leading_length_size={tagw}).parse_value(pkt)", ENC, pkt=pkt)
             rawbuf = right_padded(field)
             want = text.decode("ascii")
-            ok = kind == "ok" and str(got) == want and got.attrs.get("raw_value") == rawbuf and cursor(h, pkt.attrs["raw_data"]) == off + nbits
+            ok = kind == "ok" and str(got) == want and got.attrs.get("raw_value") == rawbuf and cursor(h, pub(pkt, "raw_data")) == off + nbits
             ctx.decide(ok, "R7.str", site, "", _why(kind, got, pkt, want, rawbuf, off + nbits), where=where(fi2, fi2.node))
         except Unsupported as e:
             ctx.unknown("R7.str", site, str(e))
@@ -223,10 +223,10 @@ def string_table(ctx: Ctx, h: Harness):
             rawbuf = right_padded(field)
             try:
                 want = rawbuf.decode("ascii")
-                ok = kind == "ok" and str(got) == want and got.attrs.get("raw_value") == rawbuf and cursor(h, pkt.attrs["raw_data"]) == off + size
+                ok = kind == "ok" and str(got) == want and got.attrs.get("raw_value") == rawbuf and cursor(h, pub(pkt, "raw_data")) == off + size
             except UnicodeDecodeError:
                 want = "<undecodable>"
-                ok = kind == "raise" or cursor(h, pkt.attrs["raw_data"]) == off + size
+                ok = kind == "raise" or cursor(h, pub(pkt, "raw_data")) == off + size
             ctx.decide(ok, "R7.str", site, "", _why(kind, got, pkt, want, rawbuf, off + size), where=where(fi, fi.node))
         except Unsupported as e:
             ctx.unknown("R7.str", site, str(e))
@@ -246,7 +246,7 @@ def string_table(ctx: Ctx, h: Harness):
             pkt = mk_packet(h, 3, {k: h.val(kind, v, raw) for k, (kind, v, raw) in items.items()}, data2)
             kind, got = h.outcome(f"StringDataEncoding(encoding='US-ASCII', {args}, leading_length_size=8).parse_value(pkt)", ENC, pkt=pkt)
             rawbuf = right_padded(field)
-            ok = kind == "ok" and str(got) == "AB" and got.attrs.get("raw_value") == rawbuf and cursor(h, pkt.attrs["raw_data"]) == 3 + 32
+            ok = kind == "ok" and str(got) == "AB" and got.attrs.get("raw_value") == rawbuf and cursor(h, pub(pkt, "raw_data")) == 3 + 32
             ctx.decide(ok, "R7.str", site, "", _why(kind, got, pkt, "AB", rawbuf, 3 + 32), where=where(fi, fi.node))
         except Unsupported as e:
             ctx.unknown("R7.str", site, str(e))
@@ -255,7 +255,7 @@ def string_table(ctx: Ctx, h: Harness):
 def _why(kind, got, pkt, want, rawbuf, pos):
     if kind != "ok":
         return f"raises {got}; expected text {want!r}, raw buffer {rawbuf.hex()}, cursor {pos}"
-    return (f"text {str(got)!r}, raw value {got.attrs.get('raw_value')!r}, cursor {pkt.attrs['raw_data'].attrs.get('pos')}; "
+    return (f"text {str(got)!r}, raw value {got.attrs.get('raw_value')!r}, cursor {cursor(None, pub(pkt, 'raw_data'))}; "
             f"expected text {want!r}, raw buffer {rawbuf!r}, cursor {pos}")
 
 
@@ -272,7 +272,7 @@ def xml_lengths(ctx: Ctx):
     cases = []
     for cls, wrapper in (("BinaryDataEncoding", lambda dyn: E("BinaryDataEncoding", children=[E("SizeInBits", children=[dyn])])),
                          ("StringDataEncoding", lambda dyn: E("StringDataEncoding", {"encoding": "US-ASCII"}, [E("Variable", children=[dyn])]))):
-        for usecal, attr in ((True, None), (True, "true"), (False, "false"), (False, "False")):
+        for usecal, attr in ((True, None), (True, "true"), (False, "false"), (False, "False"), (False, "0"), (True, "1")):   # xs:boolean: true | false | 1 | 0
             ref = E("ParameterInstanceRef", dict({"parameterRef": "N"}, **({"useCalibratedValue": attr} if attr else {})))
             dyn = E("DynamicValue", children=[ref, E("LinearAdjustment", {"slope": "8", "intercept": "-8"})])
             cases.append((cls, f"DynamicValue useCalibratedValue={attr!r} with LinearAdjustment 8x-8", wrapper(dyn), usecal))
@@ -302,7 +302,7 @@ def xml_lengths(ctx: Ctx):
                 size = 16
             else:
                 size = 8 * (4 if mode else 2) - 8
-            pos = cursor(h, pkt.attrs["raw_data"])
+            pos = cursor(h, pub(pkt, "raw_data"))
             ctx.decide(kind == "ok" and pos == 1 + size, "R7.xml", site, f"{size} bits",
                        f"{cls} loaded from a document with {desc}: {'raises ' + str(got) if kind != 'ok' else 'consumed ' + str(pos - 1) + ' bits'}; "
                        f"the declared length is {size} bits")
@@ -388,7 +388,8 @@ SPEC = PropSpec(
                  "spelling, LinearAdjustment, lookup lists) consume the declared number of bits. Character decoding "
                  "itself is Python's codec (trusted)."
                  ' R7.e2: the second end-to-end document of C01 (a length lookup whose first entry is only partly satisfied).'
-                 ' R7.pure: the string / binary decoders keep nothing between packets (effect analysis); single-byte code pages are told apart in 0x80-0x9F (Windows-1252 vs ISO-8859-1).'),
+                 ' R7.pure: the string / binary decoders keep nothing between packets (effect analysis); single-byte code pages are told apart in 0x80-0x9F (Windows-1252 vs ISO-8859-1).'
+                 ' R7.str also crosses the leading size tag with every length specification (fixed, reference calibrated / raw with adjustment, lookup): the computed length is the whole raw buffer, tag included.'),
     rule_doc="R7.bin per length specification over 8 offsets x 9 lengths; R7.str per (encoding, offset, delimiting) and per length spec; R7.xml per declared form",
     assumptions=["Python codecs", "cursor reads are exact (C03)", "criteria evaluation (C06)"],
     mutants=mutants,
